@@ -114,3 +114,12 @@ pub unsafe fn no_align_offset<T>(_p: *const T, _a: usize) -> usize { usize::MAX 
 /// parsers call the same function). The Unicode path builds its result char by char through tables, after which
 /// the command name is no longer a constant for CBMC and the parsers' 100-arm `match` is explored arm by arm.
 pub fn ascii_upper(s: &str) -> String { let mut o = String::from(s); o.make_ascii_uppercase(); o }
+
+/// wall-clock reads: a fixed instant (the code under test only stores it or takes differences)
+pub fn instant_zero() -> std::time::Instant { unsafe { std::mem::zeroed() } }
+pub fn systime_zero() -> std::time::SystemTime { std::time::UNIX_EPOCH }
+
+/// persistence harnesses (C12/C13): the encoders are C14's subject; here a record is four fixed bytes and a
+/// manifest is "{}" - what is decided is the order and the fault handling of the store operations around them
+pub fn stub_bincode_serialize<T: ?Sized + serde::Serialize>(_v: &T) -> bincode::Result<Vec<u8>> { Ok(vec![1, 2, 3, 4]) }
+pub fn stub_json_pretty<T: ?Sized + serde::Serialize>(_v: &T) -> serde_json::Result<Vec<u8>> { Ok(vec![b'{', b'}']) }
